@@ -41,6 +41,14 @@ CHECKS = {
    category="exploration", design_ref="3/C13", technique="exhaustive enumeration of all 2^(n-1) fragmentations per word (n <= 7) over hypothesis-generated specs and words; metamorphic relation over cuts",
    text="For generated specs and words (in and near the language) every composition into fragments is fed through IterativeParser.consume as packetparser does; the complete parses after the last fragment must equal the one-shot result; can_continue()==False is refuted by a concrete longer word of the enumerated language.",
    note="One-shot parse is the reference (its soundness is C04); non-greedy regex words are excluded (open known finding)."),
+ "C10": dict(
+   category="exploration", design_ref="3/C10", technique="stateful property-based testing (hypothesis RuleBasedStateMachine) against a from-scratch structural model, plus generated operator applications on grammar trees",
+   text="Histories of public tree operations (construct, add/set children, setters, copies, prefix/split, indexing, slicing, every selector class, value conversions) on a pool of live trees; after every step size/hash/equality/parent links are compared with recomputation from the structure, inputs of copying operations and of read-only accessors must keep their identity snapshot. Part B applies replace/crossover/mutation/repair and whole fuzz runs to grammar trees and checks inputs and held solutions stay unchanged.",
+   note="Only detached nodes are attached (no caller-made sharing); hash collisions ignored; trees capped at 150 nodes."),
+ "C12": dict(
+   category="exploration", design_ref="3/C12", technique="stateful property-based testing (hypothesis RuleBasedStateMachine): parse-request histories on one spec object vs. a fresh object per request",
+   text="Histories of parse-type requests (first tree, full forest, abandoned/closed generators, parse_multiple, INCOMPLETE mode, other start symbols, include_controlflow, API parse, fuzz-internal parses, edits of returned trees) on one spec object; every answer must equal the answer of a fresh object built from the same text.",
+   note="Differential against a history-free run of the same code; trees compared by shape; requests over the parser budget on the fresh object are skipped."),
 }
 NA = {}
 checks = []
